@@ -6,6 +6,7 @@ Import ListNotations.
 Require Import Gen.Anchors_C03 Norad.Model.Sites.
 Require Import Norad.Model.Base Norad.Model.Totality Norad.Model.Contour.
 Require Import Norad.Proofs.TotalityP Norad.Props.C03.
+Require Norad.Model.Upconv.
 Open Scope string_scope.
 
 Module StringOrder <: TotalLeBool.
@@ -30,9 +31,9 @@ Check C03_walk_no_panic. Check C03_store_get. Check C03_save_stores. Check C03_d
 
 (** ... the model definitions that transliterate guards and constants ... *)
 Lemma definition_names : definitions_used =
-  ["walk"; "get_cell"; "save_stores"; "date_slices"; "odump"; "deser_fixed"; "build"; "kurbo_offcurve_sites"; "image_new"; "single_point_sites"; "parse_lib_slice"; "advance_inner"; "load_layer_dir"; "new_layer"; "lc_remove"; "rename_layer"; "insert_glyph"; "rename_glyph"; "plain_name"; "upconv_side"; "unique_loop"; "u2f"; "DATE_LENGTH"; "DEFAULT_DIR"; "DEFAULT_LAYER_NAME"; "MAX_LEN"; "NUMBER_LEN"; "illegal"; "reserved"].
+  ["walk"; "get_cell"; "save_stores"; "date_slices"; "odump"; "deser_fixed"; "Upconv.map_abs_num"; "build"; "kurbo_offcurve_sites"; "image_new"; "single_point_sites"; "parse_lib_slice"; "advance_inner"; "load_layer_dir"; "new_layer"; "lc_remove"; "rename_layer"; "insert_glyph"; "rename_glyph"; "plain_name"; "upconv_side"; "unique_loop"; "u2f"; "DATE_LENGTH"; "DEFAULT_DIR"; "DEFAULT_LAYER_NAME"; "MAX_LEN"; "NUMBER_LEN"; "illegal"; "reserved"].
 Proof. vm_compute. reflexivity. Qed.
-Check walk. Check get_cell. Check save_stores. Check date_slices. Check odump. Check @deser_fixed. Check build. Check @kurbo_offcurve_sites. Check image_new. Check @single_point_sites. Check parse_lib_slice. Check advance_inner. Check load_layer_dir. Check new_layer. Check lc_remove. Check rename_layer. Check insert_glyph. Check rename_glyph. Check plain_name. Check upconv_side. Check unique_loop. Check u2f. Check DATE_LENGTH. Check DEFAULT_DIR. Check DEFAULT_LAYER_NAME. Check MAX_LEN. Check NUMBER_LEN. Check illegal. Check reserved.
+Check walk. Check get_cell. Check save_stores. Check date_slices. Check odump. Check @deser_fixed. Check Norad.Model.Upconv.map_abs_num. Check build. Check @kurbo_offcurve_sites. Check image_new. Check @single_point_sites. Check parse_lib_slice. Check advance_inner. Check load_layer_dir. Check new_layer. Check lc_remove. Check rename_layer. Check insert_glyph. Check rename_glyph. Check plain_name. Check upconv_side. Check unique_loop. Check u2f. Check DATE_LENGTH. Check DEFAULT_DIR. Check DEFAULT_LAYER_NAME. Check MAX_LEN. Check NUMBER_LEN. Check illegal. Check reserved.
 
 (** ... and the sites catalogued as reachable are exactly the two remaining known classes of
     norad's own sites, each with its refutation theorem *)
